@@ -15,7 +15,7 @@ pub fn mon() -> Mon {
         run,
         finish,
         replay,
-        rule: "Encoder catalogue with 7-bit addresses: all 128x128 (own, destination) pairs on every call form, every small parameter value, body sizes 0..300 and selected sizes up to 600 on the nine variable-body forms, random products. Each Ok(n) output is checked literally: b0 == dst<<1, b1 == 0x0F, b2 == n-4, b3 == src<<1|1, n == b2+4, and get_length (on a context with a different address) on prefixes of >= 3 bytes returns Ok(n); every call whose frame would need a byte count > 255 must return Err. Non-trivial = an output packet was judged or an oversize call was judged; distinct = distinct (form, output bytes) / (form, oversize length).",
+        rule: "Encoder catalogue with 7-bit addresses (plus the responses process_packet encodes, whose destination is the requester): all 128x128 (own, destination) pairs on every call form, every small parameter value, body sizes 0..300 and selected sizes up to 600 on the nine variable-body forms, random products. Each Ok(n) output is checked literally: b0 == dst<<1, b1 == 0x0F, b2 == n-4, b3 == src<<1|1, n == b2+4, and get_length (on a context with a different address) on prefixes of >= 3 bytes returns Ok(n); every call whose frame would need a byte count > 255 must return Err. Non-trivial = an output packet was judged or an oversize call was judged; distinct = distinct (form, output bytes) / (form, oversize length).",
         assumptions: &[
             "own and destination addresses are 7-bit (the property's quantifier); 8-bit values are exercised by C05 only",
             "a panic on an oversize or boundary-size message is recorded here but judged by C16 (no panic), not C04",
@@ -123,8 +123,45 @@ fn run(cfg: &RunCfg) -> Report {
     let pc = CtxCfg::simple(0x5A);
     crate::libapi::with_ctx(&pc, |probe| {
         for_each_call(cfg, "c04", &p, &mut |c, _| check(c, probe, &mut rep));
+        let n = if cfg.is_small() { 200 } else { cfg.pick(40_000, 4_000_000) };
+        let mut rrep = Report::new();
+        for_each_response(cfg, "c04-responder", n, &mut |req, resp, who, rep| check_response(req, resp, who, probe, rep), &mut rrep);
+        rep.merge(rrep);
     });
     rep
+}
+
+/// Framing of the packets process_packet encodes: destination = the requester's address.
+pub fn check_response(req: &[u8], resp: &[u8], who: &CtxCfg, probe: &MCTPSMBusContext, rep: &mut Report) {
+    rep.eval();
+    let n = resp.len();
+    rep.class("responder:response");
+    rep.nontrivial(hash_bytes(0x44, resp));
+    let mut bad = |what: &str, detail: String| {
+        rep.violation(
+            &format!("process_packet-response:{}", what),
+            || format!("{}; request {} -> response {} (responder {:#04x})", detail, crate::json::hex(req), crate::json::hex(resp), who.addr),
+            || format!("resp|{}|{}", who.encode(), crate::json::hex(req)),
+        );
+    };
+    if resp[0] != (req[3] & 0xFE) {
+        bad("b0-dest-addr", format!("byte 0 {:#04x} != requester address<<1 {:#04x}", resp[0], req[3] & 0xFE));
+    }
+    if resp[1] != 0x0F {
+        bad("b1-command-code", format!("byte 1 {:#04x} != 0x0F", resp[1]));
+    }
+    if resp[2] as usize != n - 4 {
+        bad("b2-byte-count", format!("byte count {} != n-4 = {}", resp[2], n - 4));
+    }
+    if resp[3] != ((who.addr << 1) | 1) {
+        bad("b3-source-addr", format!("byte 3 {:#04x} != own address<<1|1 {:#04x}", resp[3], (who.addr << 1) | 1));
+    }
+    for k in [3usize, 4, n / 2, n] {
+        if get_length(probe, &resp[..k]) != LenOut::Ok(n) {
+            bad("length-probe", format!("get_length(prefix of {} bytes) != reported length {}", k, n));
+            break;
+        }
+    }
 }
 
 fn finish(rep: &mut Report, cfg: &RunCfg) {
@@ -138,6 +175,10 @@ fn finish(rep: &mut Report, cfg: &RunCfg) {
 }
 
 fn replay(case: &str, rep: &mut Report) -> Result<(), String> {
+    if let Some(rest) = case.strip_prefix("resp|") {
+        let pc = CtxCfg::simple(0x5A);
+        return crate::libapi::with_ctx(&pc, |probe| replay_response(rest, rep, &mut |q, r, w, rep| check_response(q, r, w, probe, rep)));
+    }
     let c = Call::decode(case).ok_or("cannot parse case")?;
     let pc = CtxCfg::simple(0x5A);
     crate::libapi::with_ctx(&pc, |probe| check(&c, probe, rep));
